@@ -208,6 +208,19 @@ def run_model(cases):
 
 
 WASM_OPS = ('wcall', 'wexports')
+REST_OPS = ('rreq', 'rburst')
+
+
+def build_rest():
+    """the real server binary from the working tree (workspace mode: /repo/go.work)"""
+    out = os.path.join(WORK, 'restbin')
+    env = dict(os.environ, GOPROXY='off')
+    env.pop('GOFLAGS', None)
+    env.pop('GOWORK', None)
+    rc, o = sh(['go', 'build', '-o', out, './cmd'], cwd=os.path.join(REPO, 'internal', 'app'), env=env, timeout=900)
+    if rc:
+        raise RuntimeError('REST server build failed: ' + o[-800:])
+    return out
 
 
 def build_wasm():
@@ -249,7 +262,10 @@ def run_impl(cases, timeout=1800):
     res = [None] * len(cases)
     if gidx:
         g = [cases[i] for i in gidx]
-        rc, out = sh([os.path.join(BIN, 'harness'), 'exec'], inp='\n'.join(g) + '\n', timeout=timeout)
+        env = None
+        if any(c.split(' ')[0] in REST_OPS for c in g):
+            env = dict(os.environ, VERIF_REST_BIN=build_rest())
+        rc, out = sh([os.path.join(BIN, 'harness'), 'exec'], inp='\n'.join(g) + '\n', timeout=timeout, env=env)
         lines = out.split('\n')[:-1]
         if len(lines) != len(g):
             raise RuntimeError('harness produced %d answers for %d cases (rc=%d): %s' % (len(lines), len(g), rc, out[-500:]))
@@ -309,7 +325,7 @@ def outcome_match(impl, model):
 
 
 def nontrivial(case, impl):
-    if impl.startswith('ok:') or impl.startswith('cfg:') or impl.startswith('url:') or impl.startswith('up:') or impl.startswith('b:') or (impl.startswith('s:') and not impl.startswith('s:6572726f72')) or impl.startswith('v:true') or impl == 'panic':
+    if impl.startswith('ok:') or impl.startswith('cfg:') or impl.startswith('url:') or impl.startswith('up:') or impl.startswith('b:') or impl.startswith('200|') or (impl.startswith('s:') and not impl.startswith('s:6572726f72')) or impl.startswith('v:true') or impl == 'panic':
         return True
     if impl.startswith('v:false:'):
         try:
@@ -415,6 +431,8 @@ PROPS = {
     'C07': {'streams': [('c07', 3000, 200000)]},
     'C08': {'streams': [('c08', 300, 10000)]},
     'C10': {'streams': [('c10', 1500, 40000)]},
+    'C18': {'streams': [('c18', 1200, 40000)]},
+    'C19': {'streams': [('c19', 600, 20000)]},
     'C20': {'streams': [('c20', 1500, 40000)]},
     'C13': {'streams': [('c13', 900, 30000)]},
     'C14': {'streams': [('c14', 1500, 50000)]},
